@@ -30,6 +30,21 @@
 (*   (feature sets)   -                   Gen_Build        Trace_Build     *)
 (*   BigNum, Float    MC_BigNum           exact arithmetic kernel          *)
 (*   RefTables        MC_Tables           uninterpreted t / normal quantile*)
+(*   TClosed          MC_TCert            even-dof t distribution function *)
+(*                                        in closed (algebraic) form: the  *)
+(*                                        even rows of the table are       *)
+(*                                        certified, and critical values   *)
+(*                                        at ANY float level are decided   *)
+(*                                        (Trace_Mean!ExtremeFailed)       *)
+(*                                                                         *)
+(* Cross-cutting clauses of the trace validators:                          *)
+(*   *.history_independent   a call repeated on a fresh thread returns the *)
+(*                           same bits (stage `hist`: call sequences on    *)
+(*                           one thread that a coarse memo key confuses)   *)
+(*   populations a * 2^p     Proportion!BoundOKD, Trace_Quantile!JudgeBig: *)
+(*                           the same judges over dyadic counts            *)
+(*   *.event_not_admitted_by_the_specification   a recorded event the      *)
+(*                           validator cannot evaluate rejects the trace   *)
 (*                                                                         *)
 (* Property index (clause prefixes printed by the validators):             *)
 (*   C01 Trace_Mean!ArithFailed           C11 Trace_Totality!Failed        *)
